@@ -35,6 +35,11 @@ func verifHarnessC02() {
 	kp := verifKeyPool(verifParam("pool"), verifParam("klen"))
 	wopts := verifOptions(verifDir("db"), "")
 	ropts := verifReaderOptions(wopts)
+	if verifParam("spelling") == 2 {
+		// a directory name with pattern metacharacters (taken literally by everything the engine does with it)
+		wopts.DirPath = verifDir("db[1]*?")
+		ropts.DirPath = wopts.DirPath
+	}
 	if verifParam("spelling") == 1 {
 		// the same directory under two spellings: with a trailing separator for the first and third session,
 		// without for the second (merge directories, lock files ... must be the same ones)
